@@ -69,6 +69,8 @@ def gen_case(rng, k):
         "temperature": gen_values(rng, m, p_tnan, p_tinf, rng.choice([1, -1]), -40, 120, 4),
         "observed": gen_values(rng, m, p_onan, p_oinf, rng.choice([1, -1]), -50, 200, 8, p_zero=0.03),
     }
+    # predict() accepts the baseline data class as well as the reporting one: both are exercised
+    case["data_class"] = "baseline" if rng.random() < 0.4 else "reporting"
     return case
 
 
@@ -92,9 +94,10 @@ def build(case):
                        "observed": [sd.dec(v) for v in case["observed"]]}, index=idx, dtype=float)
     if not case["has_obs_col"]:
         fr = fr[["temperature"]]
+    role = case.get("data_class", "reporting")
     if case["stream"] == "injected":
-        return model, sd.inject(case["model"], sd.layout(fr, case["has_obs_col"]), case["tz"]), subs
-    cls = sd.data_classes(case["model"])
+        return model, sd.inject(case["model"], sd.layout(fr, case["has_obs_col"]), case["tz"], role), subs
+    cls = sd.data_classes(case["model"], role)
     if case.get("billing_input") == "bills" and case["has_obs_col"]:
         # monthly reads: one value per bill start (irregular 27..34 days), NaN terminated; daily temperature
         bills, i, j = [], 0, 0
@@ -159,9 +162,12 @@ def run_impl(case):
     return obs
 
 
-def detect_policy():
-    """which masking behaviour does the implementation have? (4 probe days through the daily model)"""
-    case = {"model": "daily", "stream": "injected", "tz": "UTC", "start": "2021-03-01", "n": 4, "gaps": [],
+PAIRS = [("daily", "reporting"), ("daily", "baseline"), ("billing", "reporting"), ("billing", "baseline")]
+
+
+def detect_policy(kind="daily", role="reporting"):
+    """which masking behaviour does the public predict() of this (model class, data class) pair have? (4 probe days)"""
+    case = {"model": kind, "data_class": role, "stream": "injected", "tz": "UTC", "start": "2021-03-01", "n": 4, "gaps": [],
             "has_obs_col": True, "electricity": False, "billing_input": None,
             "submodels": [{"key": "fw-su_sh_wi", "seasons": ["su", "sh", "wi"], "days": "fw", "type": "tidd",
                            "intercept": [7, 1], "hdd_bp": [50, 1], "cdd_bp": [60, 1], "hdd_beta": [0, 1], "cdd_beta": [0, 1],
@@ -196,7 +202,7 @@ def oracle(case, obs):
     fails = []
     if not obs["has_obs"]:
         return fails
-    base = {"model": case["model"]}
+    base = {"model": case["model"], "data_class": case.get("data_class", "reporting")}
     by_ts = {r[0]: r for r in obs["input"]}
     daily = obs["frames"].get("None")
     causes = set()
@@ -283,8 +289,8 @@ def coq_case(policy, case, obs, aggs):
                     for t, o, p in zip(fr["ts"], fr["obs"], fr["pred"])])
     sums = coq_list(["(%s, %s)" % (cell(obs["frames"][str(a)]["sum_obs"]), cell(obs["frames"][str(a)]["sum_pred"]))
                      for a in aggs])
-    return "(%s, %s, %s, %s, ((%s : pattern), (%s : list (qcell * qcell))))" % (
-        zlit(policy), coq_bool(obs["has_obs"]), coq_list([coq_pl(i, s) for i, s in enumerate(subs)]),
+    return "(%s, (%s, %s, %s, %s, ((%s : pattern), (%s : list (qcell * qcell)))))" % (
+        zlit(1 if case.get("data_class") == "baseline" else 0), zlit(policy), coq_bool(obs["has_obs"]), coq_list([coq_pl(i, s) for i, s in enumerate(subs)]),
         coq_rows(obs["input"]), pat, sums)
 
 
@@ -302,6 +308,7 @@ def process(run, cases, policy):
         n_drop = sum(1 for r in rows if cause_of(r) != "complete row" and not (not obs["has_obs"] and r[2] not in ("nan", "inf", "-inf")))
         nontrivial = 0 < n_drop < len(rows)
         run.dist("stream", "%s/%s" % (case["model"], case["stream"]))
+        run.dist("(model class, data class) through the public predict()", "%s/%s" % (case["model"], case.get("data_class", "reporting")))
         run.dist("rows", min(400, 10 ** len(str(len(rows)))))
         run.dist("has_observed", obs["has_obs"])
         for r in rows:
@@ -342,7 +349,7 @@ def process(run, cases, policy):
     if not terms:
         return
     run.log("implementation runs done (%d cases), evaluating the model in Coq" % len(terms))
-    bad = run.coq_cases("predict", IMPORTS, "", terms, "check_predict", shard=max(10, min(60, len(terms) // 12 + 1)))
+    bad = run.coq_cases("predict", IMPORTS, "", terms, "check_predict_dc", shard=max(10, min(60, len(terms) // 12 + 1)))
     if bad is None:
         run.proof_ok = False
         return
@@ -350,7 +357,7 @@ def process(run, cases, policy):
         case, obs, aggs = meta[i]
         run.corr_failures.append({"stream": "predict", "case": case, "aggregations": [str(a) for a in aggs],
                                   "impl": {str(a): {k: obs["frames"][str(a)][k] for k in ("sum_obs", "sum_pred")} for a in aggs},
-                                  "model": run.coq_eval(IMPORTS, "", "show_predict %s" % terms[i])[-1500:]})
+                                  "model": run.coq_eval(IMPORTS, "", "show_predict_dc %s" % terms[i])[-1500:]})
     for i in bad[5:]:
         run.corr_failures.append({"stream": "predict", "case": meta[i][0]})
 
@@ -360,14 +367,16 @@ def main():
     run.cov["rule"] = (
         "synthetic daily/billing models (1-6 sub-models, tidd / hdd_tidd_cdd, dyadic coefficients) x reporting frames of "
         "1-400 local days in 5 zones, with/without observed column, NaN density 0/.05/.3/1 and +-inf density 0/.04 in "
-        "either column, index gaps; stream 'class' goes through DailyReportingData/BillingReportingData (daily frames "
+        "either column, index gaps; the data object is of the reporting class or of the baseline class (Daily/Billing x Reporting/Baseline"
+        "Data: every type predict() accepts); stream 'class' goes through the class constructor (daily frames "
         "or monthly bills + daily temperature), stream 'injected' places the frame in the data object directly; billing: "
         "aggregation None/monthly/bimonthly. distinct = (case hash, aggregation); non-trivial = frame has both kept and dropped rows")
     run.assumptions += [
         "the sub-model curve is an oracle of the model (any function of segment and temperature); the correspondence "
         "instantiates it by the unsmoothed three-segment curve for the generated coefficients only",
         "index duplicate free (the data classes remove duplicates); DataFrame.join on duplicated labels is not modelled",
-        "stream 'injected' bypasses the data-class constructor (frame placed in the private attribute _df)",
+        "stream 'injected' bypasses the data-class constructor (frame placed in the private attribute _df); prediction always "
+        "goes through the public predict() with an object of one of the data classes it accepts (reporting 60% / baseline 40%)",
         "the masking behaviour the model is run with (mask_policy) is detected from the implementation on a 4-day probe; "
         "the property oracle, not the model, decides violations",
         "correspondence is sampled: agreement is established on the cases run",
@@ -383,6 +392,20 @@ def main():
         run.corr_failures.append({"stream": "policy-probe", "case": pcase, "impl": pobs["frames"],
                                   "model": "no masking policy of Model/Rows.v explains the probe"})
         policy = 0
+    # the same probe through the public predict() of every (model class, data class) pair predict() accepts: the data
+    # class is not an input of the model (C07_output_depends_on_frame_only), so every pair must show the same behaviour
+    probes = [pcase]
+    per_pair = {"daily/reporting": POLICY_NAMES.get(policy, "unrecognised")}
+    for kind, role in PAIRS[1:]:
+        pol2, pc2, po2 = detect_policy(kind, role)
+        per_pair["%s/%s" % (kind, role)] = POLICY_NAMES.get(pol2, "unrecognised")
+        probes.append(pc2)
+        if pol2 != policy:
+            run.log("masking behaviour of %s model on %s data differs: %s" % (kind, role, per_pair["%s/%s" % (kind, role)]))
+            run.corr_failures.append({"stream": "policy-probe", "case": pc2, "impl": po2["frames"],
+                                      "model": "predict() of the %s model masks differently for a %s-class object than the daily "
+                                               "model for a reporting-class one; the model has one behaviour for all" % (kind, role)})
+    run.cov["masking_behaviour_per_pair"] = per_pair
     # which theorem of Properties/C07.v speaks about the behaviour observed: C07_mode_verdict proves
     #   C07_statement_q pol <-> mode_satisfies_statement pol = true ; the boolean is evaluated inside Coq
     ans = run.coq_eval(IMPORTS, "", "mode_satisfies_statement (policy_of %s)" % zlit(policy))
@@ -406,7 +429,9 @@ def main():
         corpus = os.path.join(vlib.VERIF, "corpus", "C07.json")
         if os.path.exists(corpus):
             cases += json.load(open(corpus))
-        cases.append(pcase)
+        cases += probes
+        # the refutation witnesses of Properties/C07.v through the baseline class too
+        cases += [dict(c, data_class="baseline") for c in cases if c.get("comment") and c.get("data_class") != "baseline"]
         for k in range(run.n(340, 8000)):
             cases.append(gen_case(run.rng, k))
     step = 2000
